@@ -31,3 +31,42 @@ claim('C17', 'count_support_eq_bits / count_is_multiplicity / count_total for ev
 claim('C18', 'hydrogen_irrelevant, floating_excluded_eq_deleted, floating_coords_irrelevant, floating_included_contributes for every ring dictionary: the scene the iteration consults is equal, '
       'hence every run and query. Tie on salts/hydrates/explicit-H molecules; search: displacing hydrogens and unbonded atoms, deleting unbonded atoms.',
       M1TB, 'Coq proof (scene equality) + differential correspondence + metamorphic search', 'DESIGN.md 5 C18')
+claim('C03', 'fp_relabel_invariant: for every ordered-ring dictionary (instance Z executed), options, molecule with distinct atom indices and injective renumbering p (also stated over permutation tables: '
+      'all n! permutations), the runs on m and relabel p m raise the same error or reach the same level with, at every level, the same multiset of (identifier, p-image of substructure), and equal '
+      'fingerprints (bit and count, any bits/level, mask mapped by p); stereo included (pick_y / pick_z / two-identical rule proved order-independent), under the general-position hypothesis '
+      'that no two retained atoms coincide (shown necessary by a refuting witness replayed on the implementation). Conformer order: a molecule value carries one conformer (definitional) + C04. '
+      'Tie on renumbered molecules; search under random permutations and conformer orders.',
+      M1TB + ' Closed proofs (no axioms). `relabel` is the model of Chem.RenumberAtoms.', 'Coq proof (induction on levels, permutation/sorting lemmas) + differential correspondence + metamorphic search', 'DESIGN.md 5 C03, 5a')
+claim('C12', 'levels_nest, run_prefix, truncation, beyond_convergence, minus_one_is_limit, minus_one_terminates (fuel > n^2-n on Z; 2^n for any dictionary), label_is_requested: proved for every scene, options and '
+      'level cap, closed. Tie over all caps with queries below/at/beyond the level reached; search: one run to L queried at every k against runs limited to k, nesting, -1 against runs past convergence.',
+      M1TB, 'Coq proof (iteration prefix / fusion lemmas, termination measure) + differential correspondence + metamorphic search', 'DESIGN.md 5 C12')
+claim('C07', 'Axiom-free theorems over M2: fold accepted iff 0 < nb <= bits, bits = nb*2^k, method in {0,1} (each rejection = the exception raised); folded positions = remainders (method 0) / quotients (method 1); '
+      'bit collisions OR-ed, count/float collisions summed over the fibre (total conserved); unfolding map = fibres (partition); folding through any intermediate power-of-two length = direct folding for both '
+      'methods and all kinds; counts_method reducers; database fold rows = row-wise fingerprint fold and leaves the source rows unchanged (see evidence for the parts present). Tie: exhaustive index subsets for small '
+      'lengths, sampled to 2^32, both index maps, options, source re-observed, history independence; fingerprinter route through the M1 checks.',
+      TB + ' Faithful for lengths <= 2^53 (the code tests the ratio in double precision). Known finding: fold cache + counts_method.', 'Coq proof + differential correspondence', 'DESIGN.md 5 C07')
+claim('C08', 'Axiom-free (coqchk-clean) over Model/DbIO.v: load(savez db) = db in every field for every well-formed database value; prefixed property keys are disjoint from the eight fixed keys for ANY property name; the name index '
+      'built by any batch history equals the one rebuilt on load/__setstate__; n+1 cycles = 1 cycle in both formats; for strictly increasing columns < bits (unbounded) the text row has exactly bits characters with 1 exactly at '
+      'the columns, one line per row in row order, name appended when requested. NumPy archive and pickle are universally quantified functions with a stated round-trip hypothesis. Constants regenerated from db.py each run.',
+      TB + ' npz/pickle/smart_open round-trips are hypotheses. Known finding: trailing NUL in a name.', 'Coq proof + regenerated facts + differential correspondence', 'DESIGN.md 5 C08')
+claim('C09', 'Axiom-free over M2: eq_spec (== true exactly for equal type, length, level, indices and counts), eq_total / eq_raises_only_mixed, reflexive, symmetric, transitive, != is the negation also through Python operator dispatch, '
+      'copy_eq and convert_back_eq_* with witnesses for non-representable cases, db_eq_spec. Independence of copies decided on the implementation (identity, shared memory, mutate-one-side/re-observe).',
+      TB + ' Not covered: mutable values stored inside props; copy.copy (shallow by definition); fingerprints holding zero/negative counts (noted).', 'Coq proof + differential correspondence', 'DESIGN.md 5 C09')
+claim('C10', 'Axiom-free, for every well-formed fingerprint of any length (induction on the index list / bits): index array, dense vector, CSR vector, bit string, RDKit vector (bits <= 2^31-1), pickle state, save/load and savez/loadz '
+      'reproduce type, length, indices and counts; level/name exactly when the format carries them; count dense/CSR forms exist iff every count <= 65535 (regenerated from COUNT_FP_DTYPE); refuting witnesses above 2^31.',
+      TB + ' NumPy/SciPy/RDKit/pickle/gzip/bz2/smart_open behave as modelled.', 'Coq proof + differential correspondence', 'DESIGN.md 5 C10')
+claim('C13', 'PARTIAL. Proved (closed) on model M5 of filter_conformers and the generator option state, for all energies, all RMSD oracles, every permutation an argsort may return, all options and histories: energy order, pairwise separation '
+      '(symmetric oracle), window, count <= first and <= max_conformers, lowest first, maximality, reported energies and RMSD matrix are those of the returned conformers in order, generator reuse. Tested, not proved: seed reproducibility, '
+      'input unmodified, heavy-atom graph and stereo preserved, wrapper consistency (RDKit embedding / force fields / GetBestRMS are oracles).',
+      TB + ' RDKit embedding, force fields, GetBestRMS (symmetry assumed), np.argsort returning a sorting permutation.', 'Coq proof over an oracle-parameterised model + injected-oracle correspondence', 'DESIGN.md 5 C13, 8')
+claim('C14', 'Closed theorems over Model/Pipeline.v: dict_spec / first_cases (one fingerprint per conformer of the first N, in order, per level of the range), names_spec / names_injective (unbounded, character-level model of the name regex; '
+      'exclusion shown necessary), unnamed/empty-named, level selection, all_iters = truncated runs (C12 as hypothesis), saved files reload (pickle round-trip hypothesis), fprints_from_smiles leaks no state over any history. '
+      'Tie against direct Fingerprinter use over the four entry points; facts regenerated from the source.',
+      TB + ' The per-conformer fingerprint function (M1), conformer generation, SD reader and pickle are parameters.', 'Coq proof + regenerated facts + differential correspondence', 'DESIGN.md 5 C14')
+claim('C15', 'PARTIAL. Closed theorems over Model/Batch.v: database = same multiset of named rows for every completion/input order, failures remove exactly their rows; for distinct names the output directory is schedule independent; '
+      'no-overwrite re-run preserves complete molecules, completes the rest, overwrite regenerates; crash after ANY prefix of whole-file writes then resume = uninterrupted run; worker proved to be M6\'s entry point; conformer generation is a '
+      'second instance. Pool completion order and file-write atomicity are the runtime\'s: exercised by real serial/threads/processes runs with pre-created/stale files (SHA-256 + mtime), not proved.',
+      TB + ' Known finding: resumed run with db_file + out_dir_base writes an incomplete database.', 'Coq proof (permutation invariance, file-state machine) + fault/schedule exploration', 'DESIGN.md 5 C15, 8')
+claim('C19', 'PARTIAL. Closed theorems over Model/Files.v: SMILES table write/read identity (distinct whitespace-free names), 4-decimal energy codec idempotent / identity on 4-decimal values / nearest, and for ANY SD codec (Section variables): '
+      'conformer count and order under both limits, per-conformer energies, in-memory property map restored by mol_to_sdf (exact general effect otherwise). Tested, not proved: molecule identity, coordinates <= 5e-5, names through RDKit and smart_open.',
+      TB + ' SD writer/reader, compression are RDKit\'s / smart_open\'s.', 'Coq proof over an oracle-parameterised model + differential correspondence', 'DESIGN.md 5 C19, 8')
